@@ -54,6 +54,8 @@ def run(ctx: Ctx) -> None:
     keyi_guards(ctx, py, rs)
     sibling_skeleton(ctx, py, rs)
     active_columns_table(ctx, py, rs)
+    debounce_arms_repeat(ctx, py, rs)
+    kil_read_fresh(ctx, py)
 
 
 # ---------------------------------------------------------------------------
@@ -386,20 +388,61 @@ def keyi_guards(ctx: Ctx, py: PyProgram, rs: RustProgram) -> None:
             n += 1
             gs = g.guards_of(g.node_of(c))
             texts = [py_guard_text(x) for x in gs]
-            pos = [unparse(a) for a, pol, _o in gs if isinstance(a, ast.AST) and pol]
-            latch = any("_key_irq_latched" in t for t in pos)
-            en = any("_kb_irq_enabled" in t for t in pos) and any("event" in t for t in pos)
-            if not (latch or en):
-                ctx.violation("C14.3/keyi-gate", key_of(EMU, f"PCE500Emulator.{mname}", unparse(c)), "KEYI is asserted without a dominating latch or (keyboard IRQ enabled and events) test", f"{EMU}:{c.lineno}", guards=texts)
+            cex = _gate_counterexample([(a, pol) for a, pol, _o in gs if isinstance(a, ast.AST)])
+            if cex is not None:
+                ctx.violation("C14.3/keyi-gate", key_of(EMU, f"PCE500Emulator.{mname}", unparse(c)),
+                              f"KEYI can be asserted with neither the latch set nor (keyboard IRQ enabled and events pending): the guards are satisfied by {cex}", f"{EMU}:{c.lineno}", guards=texts)
             ctx.sample({"site": f"{EMU}:{c.lineno}", "fn": mname, "guards": texts[:6]})
         for st in ast.walk(m):
             if isinstance(st, ast.Assign) and any(attr_chain(t) == "self._key_irq_latched" for t in st.targets) and isinstance(st.value, ast.Constant) and st.value.value is True:
                 n += 1
                 gs = g.guards_of(g.node_of(st))
-                pos = [unparse(a) for a, pol, _o in gs if isinstance(a, ast.AST) and pol]
-                if not (any("_kb_irq_enabled" in t for t in pos) and any("event" in t for t in pos)):
-                    ctx.violation("C14.3/latch-def", key_of(EMU, f"PCE500Emulator.{mname}", "_key_irq_latched = True"), "the key IRQ latch is set without (enabled and events)", f"{EMU}:{st.lineno}", guards=[py_guard_text(x) for x in gs])
+                cex = _gate_counterexample([(a, pol) for a, pol, _o in gs if isinstance(a, ast.AST)], allow_latch=False)
+                if cex is not None:
+                    ctx.violation("C14.3/latch-def", key_of(EMU, f"PCE500Emulator.{mname}", "_key_irq_latched = True"), f"the key IRQ latch can be set without (enabled and events): guards satisfied by {cex}", f"{EMU}:{st.lineno}", guards=[py_guard_text(x) for x in gs])
     ctx.instance("C14.3/keyi-gate", "KEYI assertion and latch-set sites gated by latch or (enabled and events), both cores", n, 9)
+
+
+def _atoms(e: ast.AST, out: list) -> None:
+    if isinstance(e, ast.BoolOp):
+        for v in e.values:
+            _atoms(v, out)
+    elif isinstance(e, ast.UnaryOp) and isinstance(e.op, ast.Not):
+        _atoms(e.operand, out)
+    else:
+        t = unparse(e)
+        if t not in out:
+            out.append(t)
+
+
+def _evalb(e: ast.AST, val: dict) -> bool:
+    if isinstance(e, ast.BoolOp):
+        vs = [_evalb(v, val) for v in e.values]
+        return all(vs) if isinstance(e.op, ast.And) else any(vs)
+    if isinstance(e, ast.UnaryOp) and isinstance(e.op, ast.Not):
+        return not _evalb(e.operand, val)
+    return val[unparse(e)]
+
+
+def _gate_counterexample(guards: list, allow_latch: bool = True) -> dict | None:
+    """Propositional check (truth table over the guard atoms): do the dominating guards imply
+    `latch or (keyboard IRQ enabled and (new events or queued events))`?  Returns a falsifying assignment or None."""
+    atoms: list[str] = []
+    for g, _pol in guards:
+        _atoms(g, atoms)
+    if len(atoms) > 14:
+        raise AnalysisError("KEYI gate has more than 14 guard atoms")
+    import itertools
+    for bits in itertools.product((False, True), repeat=len(atoms)):
+        val = dict(zip(atoms, bits))
+        if not all(_evalb(g, val) == pol for g, pol in guards):
+            continue
+        latch = allow_latch and any(v for a, v in val.items() if "_key_irq_latched" in a)
+        enabled = any(v for a, v in val.items() if "_kb_irq_enabled" in a)
+        events = any(v for a, v in val.items() if "event" in a or "fifo" in a)
+        if not (latch or (enabled and events)):
+            return {a: v for a, v in val.items() if "_kb_irq_enabled" in a or "event" in a or "fifo" in a or "latch" in a}
+    return None
 
 
 # ---------------------------------------------------------------------------
@@ -520,3 +563,78 @@ def active_columns_table(ctx: Ctx, py: PyProgram, rs: RustProgram) -> None:
         ctx.violation("C14.2/active-columns-table", key_of(rs.file_for(KB_RS), "KeyboardMatrix::active_columns", "strobe decoding"),
                       f"active_columns (Rust): with KOL={kol:#04x} KOH={koh:#03x} columns_active_high={high} the strobed columns are {want} but the function returns {got_l}", rs.file_for(KB_RS))
     ctx.instance("C14.2/active-columns-table", "strobe register values x polarity: active column set == bits of KOL | KOH<<8 matching the polarity", n, 8192)
+
+
+def debounce_arms_repeat(ctx: Ctx, py: PyProgram, rs: RustProgram) -> None:
+    """Wherever a key becomes debounced (scan path or injected event) the repeat counter is armed with the configured delay under the
+    same condition - otherwise the first repeat comes off cadence."""
+    n = 0
+    cls = py.need_cls(py.module(KM_PY), "KeyboardMatrix")
+    for mname, m in cls.methods.items():
+        g = None
+        sites = [a for a in ast.walk(m) if isinstance(a, ast.Assign) and any(attr_chain(t) == "state.debounced" for t in a.targets) and not (isinstance(a.value, ast.Constant) and a.value.value is False)]
+        if not sites or mname in ("load_state",):
+            continue
+        g = cfgmod.build_py(m, mname)
+        arms = [a for a in ast.walk(m) if isinstance(a, ast.Assign) and any(attr_chain(t) == "state.repeat_ticks" for t in a.targets) and "repeat_delay" in unparse(a.value)]
+        for st in sites:
+            n += 1
+            sg = {(unparse(x), pol) for x, pol, _o in g.guards_of(g.node_of(st)) if isinstance(x, ast.AST)}
+            ok = any({(unparse(x), pol) for x, pol, _o in g.guards_of(g.node_of(a)) if isinstance(x, ast.AST)} <= sg for a in arms)
+            if not ok:
+                ctx.violation("C14.4/debounce-arms-repeat", key_of(KM_PY, f"KeyboardMatrix.{mname}", "debounced set without arming repeat_delay"),
+                              f"KeyboardMatrix.{mname} marks a key debounced (`{unparse(st)}`) without setting state.repeat_ticks to self.repeat_delay under the same condition: the first repeat event does not wait for the configured delay", f"{KM_PY}:{st.lineno}")
+    rel = rs.file_for(KB_RS)
+    for fn in rs.fns_in(KB_RS):
+        if fn.impl_ty != "KeyboardMatrix" or fn.body is None or fn.name in ("load_snapshot", "apply_snapshot", "restore_snapshot"):
+            continue
+        sites = [a for a in walk(fn.body) if a.get("k") == "assign" and expr_text(a["l"]) == "state.debounced" and expr_text(a["r"]) == "true"]
+        if not sites:
+            continue
+        g = cfgmod.build_rs(fn.node, fn.qual)
+        arms = [a for a in walk(fn.body) if a.get("k") == "assign" and expr_text(a["l"]) == "state.repeat_ticks" and "repeat_delay" in expr_text(a["r"])]
+        for st in sites:
+            n += 1
+            sg = {(expr_text(x), pol) for x, pol, _o in g.guards_of(g.node_of(st)) if isinstance(x, dict)}
+            ok = any({(expr_text(x), pol) for x, pol, _o in g.guards_of(g.node_of(a)) if isinstance(x, dict)} <= sg for a in arms)
+            if not ok:
+                ctx.violation("C14.4/debounce-arms-repeat", key_of(rel, fn.qual, "debounced set without arming repeat_delay"), f"{fn.qual} marks a key debounced without setting repeat_ticks to repeat_delay under the same condition", f"{rel}:{st['ln']}")
+    ctx.instance("C14.4/debounce-arms-repeat", "sites that mark a key debounced and arm the repeat counter with the configured delay (both cores)", n, 3)
+
+
+KH_PY = "pce500/keyboard_handler.py"
+
+
+def kil_read_fresh(ctx: Ctx, py: PyProgram) -> None:
+    """A key-input read shows the matrix as it is now: every value returned by the KIL branch of handle_register_read is 0 (scan disabled)
+    or comes from a matrix query (peek_kil / _compute_kil) made in the same call - a cached copy refreshed elsewhere goes stale when
+    the strobe changes."""
+    ctx.file_used(REPO / KH_PY)
+    fn = py.func(KH_PY, "PCE500KeyboardHandler.handle_register_read")
+    g = cfgmod.build_py(fn, "handle_register_read")
+    rets = [r for r in ast.walk(fn) if isinstance(r, ast.Return) and r.value is not None]
+    kil_rets = []
+    for r in rets:
+        gs = [(unparse(x), pol) for x, pol, _o in g.guards_of(g.node_of(r)) if isinstance(x, ast.AST)]
+        if any("KIL" in t and pol for t, pol in gs):
+            kil_rets.append(r)
+    if not kil_rets:
+        raise AnalysisError("handle_register_read: returns of the KIL branch not found")
+    fresh_assigns = [a for a in ast.walk(fn) if isinstance(a, ast.Assign) and any(isinstance(c, ast.Call) and unparse(c.func).endswith(("peek_kil", "_compute_kil")) for c in ast.walk(a.value))]
+    n = 0
+    for r in kil_rets:
+        n += 1
+        v = r.value
+        if isinstance(v, ast.Constant) and v.value in (0, None):
+            continue
+        names = {unparse(x) for x in ast.walk(v) if isinstance(x, (ast.Name, ast.Attribute))}
+        direct = any(isinstance(c, ast.Call) and unparse(c.func).endswith(("peek_kil", "_compute_kil")) for c in ast.walk(v))
+        via = False
+        for a in fresh_assigns:
+            tg = {unparse(t) for t in a.targets}
+            if tg & names and g.dominates(g.node_of(a), g.node_of(r)):
+                via = True
+        if not (direct or via):
+            ctx.violation("C14.2/kil-read-fresh", key_of(KH_PY, "PCE500KeyboardHandler.handle_register_read", "KIL read returns a cached value"),
+                          f"the KIL read returns `{unparse(v)}` without querying the matrix in the same call: after a strobe change that did not refresh the cache (e.g. a write to KOH only) a held key on a column that is no longer strobed still shows its row bit", f"{KH_PY}:{r.lineno}")
+    ctx.instance("C14.2/kil-read-fresh", "returns of the KIL read path that come from a matrix query made in the same call", n, 2)
